@@ -1,11 +1,12 @@
 SPECIFICATION Spec
-CONSTANTS Depth = 2
+CONSTANTS Depth = 1
  MaxOps = 2
  Pats <- PatsAll
  Targs <- TargsSmall
  Insts <- InstsAll
  CmpSet <- CmpSmall
- Kinds <- KindsAll
+ Cmp3Set <- Cmp3Tiny
+ Kinds <- KindsHist
  Record = FALSE
  EmitAll = FALSE
 INVARIANT StepsLawful
